@@ -48,6 +48,10 @@ def _violated_instances():
         {3: [[1, 2], [-1, 4]], 7: [[5]], 8: [[-5, 6], [2]]},
         {10: [[1]], 4: [[-1], [2, 3]], 6: [[-2, -3]], 9: []},
         {5: [[1, -2], [2, -1], [3]]},
+        # clauses that several owners share: a conditional stated twice, a conditional whose CNF contains another one's
+        # (every owner of an unsatisfied clause is violated, however often that clause occurs in the table)
+        {1: [[-1, 2]], 2: [[-1, 2], [-1, 4]], 3: [[-5, 6]]},
+        {2: [[1, 2]], 5: [[1, 2]], 6: [[3], [1, 2]]},
     ]
     models = [[1, 2, 3, 4, 5, 6], [-1, -2, -3, -4, -5, -6], [1, -2, 3, -4, 5, -6], [-1, 2, -3, 4, -5, 6], [1, 2, -3, -4, -5, 6], [-1, -2, 3, 4, 5, -6]]
     for t in tables:
